@@ -378,6 +378,10 @@ func genSell(w *World) sdk.Msg {
 			av = truncTo6(new(big.Rat).Quo(av, big.NewRat(int64(n), 1)))
 		}
 		ask := sdk.NewCoin(w.allowedDenom("askd"), askAmount(w, "ask"))
+		if ask.Denom == DenomIBC && w.chance("ask?big", 40) {
+			w.Flags["ask>=2^63"] = true
+			ask.Amount = BigCoinAmount(w, "askbig")
+		}
 		orders = append(orders, &markettypes.MsgSell_Order{
 			BatchDenom:        denom,
 			Quantity:          w.Amount("qty", av),
@@ -442,6 +446,10 @@ func genUpdSell(w *World) sdk.Msg {
 			if m := w.S.MarketByID(oo.MarketId); m != nil {
 				ask.Denom = m.BankDenom
 			}
+		}
+		if ask.Denom == DenomIBC && w.chance("ask?big", 30) {
+			w.Flags["ask>=2^63"] = true
+			ask.Amount = BigCoinAmount(w, "askbig")
 		}
 		ups = append(ups, &markettypes.MsgUpdateSellOrders_Update{
 			SellOrderId: oid, NewQuantity: q, NewAskPrice: &ask,
